@@ -68,6 +68,11 @@ impl Ntv2Grid {
                 .push(name);
         }
 
+        // `find_grid` starts from the sub grids without a parent
+        if !lookup_table.contains_key("NONE") {
+            return Err(Error::Invalid("No sub grid with parent NONE".to_string()));
+        }
+
         Ok(Self {
             subgrids,
             lookup_table,
